@@ -732,6 +732,7 @@ package rosmar
 // every combination of NULL / non-NULL columns (the separator logic has no inductive invariant that can be stated
 // without naming the loop's local `first`).
 //@ fn (*queryIterator).NextBytes
+//@   modular in=preRecord
 //@   flag bounded=result-sets-of-at-most-3-columns
 //@   variant cols3 iter=&{columnVals:slice3,columnNames:slice3,columnValPtrs:slice3,err:nil}
 //@   ensures [C19:NextBytes.renders-row] !isnull(result) ==> renders(result, iter.columnNames, iter.columnVals)
@@ -747,6 +748,42 @@ package rosmar
 //@   ensures [C19:prepareQuery.live-docs-of-this-collection] forall o: DocId :: cteWhere(result0, o) <==> (docAt(o).present && o.coll == c.id && !isnull(docAt(o).value))
 //@   ensures [C19:prepareQuery.columns] cteCols(result0) == 3 && (forall o: DocId :: cteCol(result0, "id", o) == o.key && cteCol(result0, "body", o) == docAt(o).value && cteCol(result0, "xattrs", o) == docAt(o).xattrs)
 //@   ensures [C19:prepareQuery.no-sql] count("sql") == 0
+
+// Bounded stand-in (not a proof): result sets of at most 2 rows; the loop is unrolled.
+//@ fn (*queryIterator).Close
+//@   modular in=preRecord
+//@ fn preRecord
+//@   modular in=Query
+//@   flag bounded=result-sets-of-at-most-2-rows
+//@   flag unwind=drop
+//@   ensures result != nil
+//@   ensures [C19:preRecord.keeps-every-row-once] len(result.rows) == count("call:queryIterator.NextBytes") - 1
+//@   ensures [C19:preRecord.first-row]  count("call:queryIterator.NextBytes") >= 2 ==> result.rows[0] == callretN("queryIterator.NextBytes", 0, 0)
+//@   ensures [C19:preRecord.second-row] count("call:queryIterator.NextBytes") >= 3 ==> result.rows[1] == callretN("queryIterator.NextBytes", 1, 0)
+//@   ensures [C19:preRecord.stops-at-end] isnull(callret("queryIterator.NextBytes", 0))
+//@   ensures [C19:preRecord.closes]     count("call:queryIterator.Close") == 1 && result.err == callret("queryIterator.Close", 0)
+//@
+// Bounded stand-in (not a proof): pre-recorded result sets of 0, 1 and 3 rows.
+//@ fn (*preRecordedQueryIterator).NextBytes
+//@   flag bounded=pre-recorded-result-sets-of-0-1-3-rows
+//@   variant r0 iter=&{rows:slice0}
+//@   variant r1 iter=&{rows:slice1}
+//@   variant r3 iter=&{rows:slice3}
+//@   ensures [C19:prerecorded.empty]     in r0: isnull(result)
+//@   ensures [C19:prerecorded.last-row]  in r1: old(iter.err) == nil ==> result == old(iter.rows[0]) && len(iter.rows) == 0
+//@   ensures [C19:prerecorded.in-order]  in r3: old(iter.err) == nil ==> result == old(iter.rows[0]) && len(iter.rows) == 2 && iter.rows[0] == old(iter.rows[1]) && iter.rows[1] == old(iter.rows[2])
+//@   ensures [C19:prerecorded.error]     old(iter.err) != nil ==> isnull(result)
+//@
+//@ fn (*Collection).Query
+//@   ensures [C19:Query.language]      language != "SQLite" ==> err != nil && count("sql") == 0
+//@   ensures [C19:Query.one-statement] count("sql") <= 1 && (err == nil ==> count("sql") == 1)
+//@   ensures [C19:Query.keyspace-shape] count("sql") == 1 ==> cteOK(stmtText(0))
+//@   ensures [C19:Query.live-docs-of-this-collection] count("sql") == 1 ==> forall o: DocId :: cteWhere(stmtText(0), o) <==> (docAt(o).present && o.coll == c.id && !isnull(docAt(o).value))
+//@   ensures [C19:Query.columns]       count("sql") == 1 ==> cteCols(stmtText(0)) == 3 && (forall o: DocId :: cteCol(stmtText(0), "id", o) == o.key && cteCol(stmtText(0), "body", o) == docAt(o).value && cteCol(stmtText(0), "xattrs", o) == docAt(o).xattrs)
+//@   ensures [C19:Query.reads-only]    db == old(db)
+//@   ensures [C19:Query.in-memory-prerecorded] err == nil && c.bucket.inMemory ==> count("call:preRecord") == 1 && iter == callret("preRecord", 0)
+//@   ensures [C19:Query.on-disk-streams]       err == nil && !c.bucket.inMemory ==> count("call:preRecord") == 0
+//@   ensures [C20:Query.unlocked]      any: nolocks()
 
 // ---------------------------------------------------------------------------------------------------------------
 // views.go / designdoc.go (C12: the incremental index is told about exactly the right documents; the map pipeline,
